@@ -236,6 +236,10 @@ where
     }
 }
 
+#[cfg(kani)]
+#[path = "/verif/kani/oneshot_broadcast.rs"]
+mod kani_verif;
+
 // Export a non thread-safe version using NoopLock
 
 /// A [`GenericOneshotBroadcastChannel`] which is not thread-safe.
